@@ -660,10 +660,16 @@ class RevisionMap:
         if revision is False:
             assert resolved_id
             # do a partial lookup
+            # partial identifiers match revision identifiers only; the map
+            # also has branch labels as keys, which are not candidates
             revs = [
                 x
-                for x in self._revision_map
-                if x and len(x) > 3 and x.startswith(resolved_id)
+                for x, rev in self._revision_map.items()
+                if x
+                and len(x) > 3
+                and x.startswith(resolved_id)
+                and rev is not None
+                and rev.revision == x
             ]
 
             if branch_rev:
